@@ -210,11 +210,8 @@ def case_twigs_x(ctx, case, be=None):
     mw = mask_wire(form, mask, x0)
     model = ctx.ask(f'c12x.twigs {size} | {rec_wire(rec)} | {mw} | {wire}')
     sig = twig_attribution(ctx, G.topo_neuron(y), model, size, rec_wire(rec), mw, wire, be)
-    if entry.startswith('method') and sig is None:
-        # the method takes no mask; its `recursive` must act as the function's
-        once = ctx.ask(f'c12x.twigs {size} | b0 | - | {wire}')
-        if once != model and G.topo_neuron(y) == once:
-            sig = 'TreeNeuron.prune_twigs/recursive-not-forwarded'
+    # (the method takes no mask; its `recursive` acts as the function's: repaired defect
+    #  `TreeNeuron.prune_twigs/recursive-not-forwarded`, no longer expected)
     if sig is None and be in ('igraph', 'networkx'):
         sig = twig_signature(parent_map(x0), mask, be)
     ctx.defn(G.topo_neuron(y), model, f'prune_twigs[{entry}](size={sarg!r}, recursive={rec}, mask={form if mask is not None else None}) vs definition [{be}]',
@@ -239,9 +236,7 @@ def case_exact_x(ctx, case, be=None):
     try:
         y = run_entry(ctx, case, be, 'prune_twigs', x, kw, x2=x2)
     except Exception as e:
-        sig = None
-        if mask is not None and form in ('ids_list', 'bool_list') and isinstance(e, AttributeError) and 'dtype' in str(e):
-            sig = 'prune_twigs/exact/mask-as-list/AttributeError-dtype'
+        sig = None    # (a list mask used to raise AttributeError: repaired, no longer expected)
         ctx.oracle(False, f'prune_twigs(exact=True, maskform={form if mask is not None else None}) raised {type(e).__name__}: {str(e)[:100]} [{be}]',
                    case, signature=sig)
         return
@@ -249,8 +244,7 @@ def case_exact_x(ctx, case, be=None):
         return
     fr = Fraction(size)
     mw = '-' if mask is None else 'ids:' + ','.join(map(str, mask))
-    ans = ctx.ask(f'c12x.exactm {fr.numerator}/{fr.denominator} | {mw} | {G.wire_neuron(x0)}')
-    model, aw = [t.strip() for t in ans.split('#')]
+    model = ctx.ask(f'c12x.exactm {fr.numerator}/{fr.denominator} | {mw} | {G.wire_neuron(x0)}').strip()
     c0 = coords_of(x0)
 
     def decode(txt):
@@ -278,9 +272,6 @@ def case_exact_x(ctx, case, be=None):
     got_topo = sorted((i, p if p >= 0 else -1) for i, p in pm.items())
     ctx.count('exact_x', f"mask={form if mask is not None else 'none'} int={int(ic)} size={'str' if isinstance(sarg, str) else 'num'}")
     sig = None
-    if got_topo != want_topo and mask is not None and got_topo == decode(aw)[0]:
-        # explained by the literal mask handling of _prune_twigs_precise (see `exactPruneAW`)
-        sig = 'prune_twigs/exact+mask/unmasked-node-distal-to-masked-in-range-node'
     same = ctx.defn(got_topo, want_topo, f'prune_twigs(exact=True, size={sarg!r}, mask={form if mask is not None else None}): kept nodes / parents vs '
                     f'"exactly size of cable from every (masked) tip" [{be}]', case, signature=sig)
     if same:
@@ -288,10 +279,7 @@ def case_exact_x(ctx, case, be=None):
     if same:
         c1 = coords_of(y)
         bad = [i for i in pm if max(abs(Fraction(c1[i][k]) - want_xyz[i][k]) for k in range(3)) > Fraction(1, 10 ** 6)]
-        sig = None
-        if bad and ic and all(all(Fraction(c1[i][k]) == int(want_xyz[i][k]) for k in range(3)) for i in bad):
-            # explained by the cast back to the integer dtype: every coordinate is the exact one truncated towards zero
-            sig = 'prune_twigs/exact/integer-coordinate-dtype/new-tip-truncated'
+        sig = None    # (integer-dtype coordinates used to truncate the new tip: repaired, no longer expected)
         ctx.oracle(not bad, f'prune_twigs(exact=True, size={sarg!r}): new tip position of node(s) {bad[:4]} is not exactly `size` of cable from the '
                             f'farthest original tip below it [{be}]', case, signature=sig)
         conn_check(ctx, x0, y, case, 'prune_twigs(exact)', be)
@@ -487,18 +475,7 @@ def case_longest_x(ctx, case, be=None):
             ctx.count('longest_greedy', 'checked')
             ctx.oracle(ok == '1 1', f'{what}: the segment list is not "the longest root-to-tip paths taken greedily" (greedy, partition = {ok}) [{be}]', case)
         expected.append(ctx.ask(f'c12x.fromsegs {narg_wire(n)} | {int(bool(inv))} | {sw} | {wr}'))
-    sig = None
-    if not from_root and impl not in expected and be in (None, 'fastcore') and not end_ids_sorted(x0):
-        # navis-fastcore labels the rows of the distance matrix by ascending id, the columns in table order, and reads
-        # the ROW position of the first maximum off the COLUMN labels: the start it takes is determined; the known
-        # finding explains the result only if that start reproduces it
-        ends = [int(v) for v in x0.nodes.loc[x0.nodes.type.isin(('root', 'end')), 'node_id'].values]
-        srt = sorted(ends)
-        i0 = min(i for i, e in enumerate(srt) if e in starts)
-        xw = navis.reroot_skeleton(x0, ends[i0], inplace=False)
-        sw = segs_wire(navis.graph_utils._generate_segments(xw, weight='weight'))
-        if impl == ctx.ask(f'c12x.fromsegs {narg_wire(n)} | {int(bool(inv))} | {sw} | {G.wire_neuron(xw)}'):
-            sig = 'longest_neurite/from_root=False/fastcore/start-not-an-end-of-the-longest-path'
+    sig = None    # (navis-fastcore used to take a wrong start when end ids were not ascending in table order: repaired)
     hit = ctx.oracle(impl in expected, f'{what}: kept nodes are not the requested slice of the greedy longest paths'
                      + ('' if from_root else ' from an end of the longest tip-to-tip path') + f' [{be}]', case, signature=sig,
                      impl=impl, model=expected[:3])
